@@ -116,6 +116,16 @@ def airspeed_orderings(V, H):
     assert abs(float(AERO.cas2mach(AERO.mach2cas(m, H), H)) - m) <= 1e-9, "cas2mach(mach2cas(M)) == M"
     arr = AERO.tas2cas(np.array([V, V / 2]), np.array([H, H]))
     assert abs(float(arr[0]) - cas) <= 1e-9 * cas, "array arguments act elementwise"
+    # frame condition on array arguments (after seed C20-5, an identity-keyed cache of the last atmos() result): the
+    # result depends on the array's current contents, not on an earlier call that was handed the same array object
+    Harr = np.array([H, H])
+    AERO.tas2cas(np.array([V, V / 2]), Harr)
+    AERO.atmos(Harr)
+    Harr[:] = 0.0
+    again = AERO.tas2cas(np.array([V, V / 2]), Harr)
+    assert abs(float(again[0]) - V) <= 1e-6 * V, "an array modified in place and passed again is decoded afresh"
+    p_again = AERO.atmos(Harr)[0]
+    assert abs(float(p_again[0]) - 101325.0) <= 1.0, "atmos() of a reused array object reflects its current contents"
 
 
 @harness("C20", inputs={"M": RealRange(0.001, 1.3), "H": RealRange(-500, 20000)}, idealised=True, uf_axioms=True,
